@@ -31,6 +31,9 @@ type HStep struct {
 	// time of the last version that was on disk before (mv back, cp -p, restore from backup)
 	Remove    bool `json:"remove,omitempty"`
 	SameMtime bool `json:"same_mtime,omitempty"`
+	// Replace > 0: before this step a new observer is registered under the name of observer number Replace-1 (a
+	// component that was re-created registers again): from now on it is notified, the one it replaced is not
+	Replace int `json:"replace,omitempty"`
 }
 
 type HCase struct {
@@ -87,6 +90,9 @@ func drawHistory(t *rapid.T) HCase {
 			b.Def = genDefaults().Draw(t, "def")
 			c.Steps = append(c.Steps, b)
 			continue
+		}
+		if i > 0 && c.Observers > 0 && rapid.IntRange(0, 5).Draw(t, "replace?") == 0 {
+			s.Replace = rapid.IntRange(1, c.Observers).Draw(t, "replace")
 		}
 		if rapid.IntRange(0, 9).Draw(t, "edit?") > 0 {
 			f := genFile(t, pool, 8, true)
@@ -145,7 +151,8 @@ func runHistory(c HCase) *pbt.Result {
 	var loadedText *string // text of the version the configuration last loaded
 	pending := false       // a version was written that no reload has seen yet
 	sameSecondEdits, editsBetweenReloads := 0, 0
-	removedAt := int64(0) // modification time the file carried when it was moved away
+	removedAt := int64(0)      // modification time the file carried when it was moved away
+	var retired []*recObserver // observers that were replaced under their name
 	lastEditSec := int64(-1)
 	unseenEdits := 0
 
@@ -228,6 +235,16 @@ func runHistory(c HCase) *pbt.Result {
 		return pbt.Fail("%v", err)
 	}
 	for i, s := range c.Steps {
+		if s.Replace > 0 && len(observers) > 0 {
+			idx := (s.Replace - 1) % len(observers)
+			old := observers[idx]
+			old.calls, old.bad = 0, ""
+			retired = append(retired, old)
+			nu := &recObserver{name: old.name, expect: old.expect}
+			ob.Add(old.name, nu)
+			observers[idx] = nu
+			classes["observer-replaced-under-its-name"] = true
+		}
 		if s.Remove && current != nil {
 			if err := os.Remove(path); err != nil {
 				panic(err)
@@ -257,6 +274,11 @@ func runHistory(c HCase) *pbt.Result {
 			if err := afterLoad(fmt.Sprintf("step %d reload %d", i, r), s.Def); err != nil {
 				return pbt.Fail("%v", err)
 			}
+			for _, o := range retired {
+				if o.calls > 0 {
+					return pbt.Fail("step %d reload %d: an observer that had been replaced by another one registered under the same name %q was still notified (%d times)", i, r, o.name, o.calls)
+				}
+			}
 		}
 	}
 	if current != nil && current.has("comment", nil) {
@@ -270,7 +292,7 @@ func runHistory(c HCase) *pbt.Result {
 
 var historySpec = pbt.Register(pbt.Spec[HCase]{
 	Prop: "C18", Name: "config-histories",
-	Rule:  "history = optional initial file, then 1-6 steps of (new version of the file with a modification time dsec seconds + dns nanoseconds after the previous one | no edit) followed by 0-2 reloads; one step in twelve moves the file away (reload: fall-back to the built-in defaults) and the next one brings a version back, half of the time carrying the modification time the file had before it was moved away; after every reload every non-empty key=value of the current version must be returned by GetValue/GetValueDef (trimmed) and by GetBoolean/GetInt/GetLong/GetFloat/GetIntSet/GetStringArray (strconv on the trimmed value, else the drawn default), two keys never in the file must yield the defaults, and each of 0-3 observers must have been called exactly once per changed version with the new values already visible inside the callback; non-trivial = at least one version written in the same second as the previous version",
+	Rule:  "history = optional initial file, then 1-6 steps of (new version of the file with a modification time dsec seconds + dns nanoseconds after the previous one | no edit) followed by 0-2 reloads; one step in six (from the second on) first registers a new observer under the name of an existing one, which from then on is notified in its place; one step in twelve moves the file away (reload: fall-back to the built-in defaults) and the next one brings a version back, half of the time carrying the modification time the file had before it was moved away; after every reload every non-empty key=value of the current version must be returned by GetValue/GetValueDef (trimmed) and by GetBoolean/GetInt/GetLong/GetFloat/GetIntSet/GetStringArray (strconv on the trimmed value, else the drawn default), two keys never in the file must yield the defaults, and each of 0-3 observers must have been called exactly once per changed version with the new values already visible inside the callback; non-trivial = at least one version written in the same second as the previous version",
 	Quick: 6000, Thorough: 600000,
 	Draw: drawHistory, Run: runHistory,
 })
